@@ -594,7 +594,11 @@ func init() {
 			f(c)
 		}
 	})
+	prevC05 := extra["C05"]
 	extra["C05"] = func(c *core.Ctx) {
+		if prevC05 != nil {
+			prevC05(c)
+		}
 		runSmtpProfile(c, smtpProfile{name: "c05smtp", n: [2]int{700, 25000}, errRate: 8, namings: allNamings})
 		// the recipient bound and the policy must hold whatever extensions answer (allow overrides the policy, not the bound)
 		runSmtpProfile(c, smtpProfile{name: "c05hooks", n: [2]int{400, 12000}, errRate: 5, hooks: true, namings: allNamings})
